@@ -137,7 +137,8 @@ def cmd (c : String) (args : List String) : Option String :=
           rOpt rExt (match s.succ with | some n => if registered o.ctl.sas n then none else w.extOf n.mySpi | none => none)
       pure (join ([rB o.escaped, toString o.ran] ++ rList rEnt o.ctl.sas ++
         rList (fun (x : Bytes × Bytes × Msg) => [hexOut x.1, hexOut x.2.1] ++ rMsg x.2.2) o.sent ++ rList rNl o.nl ++
-        [toString w.tape.vals.length, rB (w.tape.bad || w.clash)] ++ rOpt (fun l => rList (fun (s : Sa) => [hexOut s.core.mySpi, toString s.core.st]) l) o.status))
+        [toString w.tape.vals.length, rB (w.tape.bad || w.clash)] ++ rOpt (fun l => rList (fun (s : Sa) => [hexOut s.core.mySpi, toString s.core.st]) l) o.status ++
+        rList rKey (o.nl.foldl applyNl sad)))
   | _ => none
 
 end PyIkev2.HandlersCmd
